@@ -214,6 +214,12 @@ class Fixture:
         raise vf.NoVerdict("cannot read a store of the server: %r" % err)
 
     def sync_users(self):
+        if self.mode == "file" and self.tok:
+            # the JSON user store is written lazily (WriteUser only marks it dirty; LogonHandler flushes): an administrator
+            # logon makes the file the current image of the store before it is read
+            if not self.srv.logon("admin", ADMIN_PW):
+                raise vf.NoVerdict("cannot log on as admin to flush the user store")
+
         def rd():
             if self.mode == "file":
                 j = self._json_file(self.srv.userfile)
@@ -750,7 +756,7 @@ def run():
         # ---- the real server, every store planted
         configs = [("file", "SERVER,ROUTE")]
         if thorough:
-            configs += [("db", "SERVER,ROUTE"), ("file", "SERVER,ROUTE,REST,AUTH,APP,TABLES,DB,SQL")]
+            configs += [("db", "SERVER,ROUTE"), ("db", "SERVER,ROUTE,REST,AUTH,APP,TABLES,DB,SQL")]
         allrecs, summary = [], []
         for mode, loggers in configs:
             fx, rec, done, skipped, allnames, nsec = run_config(chk, sd, box["ego"], names_tbl, rng, thorough, mode, loggers, replay_route)
